@@ -292,6 +292,14 @@ def run(check: core.Check) -> None:
         check.add_tlc("exhaustive+coverage:" + cfg, res)
         emitted.append(_emitted_sample(res, limits[len(emitted)], rnd))
         del res
+    if quick:
+        # a third quick slice: one expected parameter against actual signatures of three parameters (e.g. *args,
+        # keyword-only, **kwargs together), replayed exhaustively
+        res = core.require_ok(core.run_tlc("SigCompatEmit", "SigCompat.quick3.cfg", timeout=3000), "SigCompat quick3")
+        check.add_tlc("exhaustive:SigCompat.quick3.cfg", res)
+        extra_pairs, _n = _emitted_sample(res, 10**6, rnd)
+        emitted[0] = (emitted[0][0] + extra_pairs, emitted[0][1] + _n)
+        del res
     if not quick:
         emitted = []
         for cfg in ("SigCompat.thorough.cfg", "SigCompat.typed.cfg"):
